@@ -416,7 +416,12 @@ impl<'a> Compiler<'a> {
                 let name = self
                     .current_namespace
                     .iter()
-                    .take(self.current_namespace.len() - super_depth)
+                    .take(
+                        self.current_namespace
+                            .len()
+                            .checked_sub(super_depth)
+                            .ok_or_else(|| self.error(CompilationErrorPayload::SuperLimitReached))?,
+                    )
                     .flat_map(|x| [x.as_ref(), "."])
                     .chain(std::iter::once(suffix.unwrap_or(alias)))
                     .collect::<String>();
@@ -438,7 +443,14 @@ impl<'a> Compiler<'a> {
                     let name = self
                         .current_namespace
                         .iter()
-                        .take(self.current_namespace.len() - super_depth)
+                        .take(
+                            self.current_namespace
+                                .len()
+                                .checked_sub(super_depth)
+                                .ok_or_else(|| {
+                                    self.error(CompilationErrorPayload::SuperLimitReached)
+                                })?,
+                        )
                         .flat_map(|x| [x.as_ref(), "."])
                         .chain([alias, ".", s.unwrap_or(suffix)].iter().copied())
                         .collect::<String>();
